@@ -42,7 +42,6 @@ HARNESSES.append(
          renames={"crypto/math/pstm.c": ["pstm_read_asn", "pstm_unsigned_bin_size", "pstm_init_size", "pstm_clear"]},
          functions=["psPkcs3ParseDhParamBin", "pstm_cmp_d", "getAsnSequence"], sources=["crypto/pubkey/dh_params.c", "crypto/math/pstm.c"],
          termination_loops=["psPkcs3ParseDhParamBin"], native_timeout_s=20,
-         assumptions=["dh_params: pstm_read_asn is a contract stub yielding arbitrary integers (privateValueLength: any value of <= 2 digits, split into the ranges 0..40 and >= 16300); pstm_unsigned_bin_size / pstm_init_size / pstm_clear are stubs"],
+         assumptions=["dh_params: pstm_read_asn is a contract stub yielding arbitrary integers (privateValueLength: any value of <= 2 digits, in the range 0..40; values that need the full 16 384 iterations of the counting loop gave no verdict in 90 min and are not claimed); pstm_unsigned_bin_size / pstm_init_size / pstm_clear are stubs"],
          unwind=8,
-         cases=[dict(name="small", defs={"VF_RANGE": 0}, unwindset={"psPkcs3ParseDhParamBin:/while\\(pstm_cmp_d/": 45}),
-                dict(name="large", tier="thorough", defs={"VF_RANGE": 1}, unwindset={"psPkcs3ParseDhParamBin:/while\\(pstm_cmp_d/": 16390}, cap_s=5400, mem_gb=24, checks=[])]))
+         cases=[dict(name="small", defs={"VF_RANGE": 0}, unwindset={"psPkcs3ParseDhParamBin:/while\\(pstm_cmp_d/": 45})]))
